@@ -7,6 +7,7 @@ import (
 	"github.com/aws/aws-sdk-go-v2/service/dynamodb"
 	"github.com/aws/aws-sdk-go-v2/service/dynamodb/types"
 	"github.com/truora/minidyn/internal/nd"
+	"github.com/truora/minidyn/internal/vspec"
 )
 
 // vC01Battery: GetItem of every key in universe equals the model; ItemCount equals the model size.
@@ -63,9 +64,13 @@ func VerifC01Step() {
 			attr = "w"
 		}
 		nd.Reach("update")
-		out, err := c.UpdateItem(vCtx, &dynamodb.UpdateItemInput{TableName: aws.String(vTbl), Key: k.item(withRange),
+		uin := &dynamodb.UpdateItemInput{TableName: aws.String(vTbl), Key: k.item(withRange),
 			UpdateExpression: aws.String("SET " + attr + " = :x"), ExpressionAttributeValues: vItem{":x": vS(x)},
-			ReturnValues: types.ReturnValueAllNew})
+			ReturnValues: types.ReturnValueAllNew}
+		if nd.Choice("op.via-name", 2) == 1 {
+			uin.UpdateExpression, uin.ExpressionAttributeNames = aws.String("SET #a = :x"), map[string]string{"#a": attr}
+		}
+		out, err := c.UpdateItem(vCtx, uin)
 		nd.Assert(err == nil, "C01-update-noerr")
 		na := map[string]string{}
 		if existed {
@@ -113,8 +118,13 @@ func VerifC01Step() {
 		nd.Assert(err != nil, "C01-update-removing-a-key-attribute-is-rejected")
 	case 7: // an UpdateItem that adds nothing still upserts: REMOVE of an attribute the item may not have
 		nd.Reach("update-remove")
-		out, err := c.UpdateItem(vCtx, &dynamodb.UpdateItemInput{TableName: aws.String(vTbl), Key: k.item(withRange),
-			UpdateExpression: aws.String("REMOVE w"), ReturnValues: types.ReturnValueAllNew})
+		// the attribute is named directly or through a #name placeholder (what a reserved word would need)
+		rin := &dynamodb.UpdateItemInput{TableName: aws.String(vTbl), Key: k.item(withRange),
+			UpdateExpression: aws.String("REMOVE w"), ReturnValues: types.ReturnValueAllNew}
+		if nd.Choice("op.via-name", 2) == 1 {
+			rin.UpdateExpression, rin.ExpressionAttributeNames = aws.String("REMOVE #r"), map[string]string{"#r": "w"}
+		}
+		out, err := c.UpdateItem(vCtx, rin)
 		nd.Assert(err == nil, "C01-update-remove-noerr")
 		na := map[string]string{}
 		if existed {
@@ -188,7 +198,13 @@ func VerifC01Typed() {
 	nd.Assert(derr2 == nil && d.Table.ItemCount != nil && *d.Table.ItemCount == 3, "C01-typed-itemcount")
 	if ht == types.ScalarAttributeTypeN {
 		// one number, several numerals: 0, -0 and 0.0 name the same item; so do 5, 5.0 and 0.5e1
-		for gi, group := range [][]string{{"0", "-0", "0.0"}, {"5", "5.0", "0.5e1"}} {
+		// ... and so do the notations of a number beyond the int64 range and of a fraction
+		groups := [][]string{{"0", "-0", "0.0"}, {"5", "5.0", "0.5e1"}, {"10000000000000000000", "1e19", "1.0E19"}, {"0.25", ".25", "25e-2"}}
+		sel := nd.Choice("numeral-group", len(groups))
+		for gi, group := range groups {
+			if gi != sel {
+				continue
+			}
 			w := nd.Choice("numeral-written", 3)
 			r := nd.Choice("numeral-read", 3)
 			it := vItem{"p": vN(group[w]), "s": val(rt, 0), "v": vS("z" + string(rune('0'+gi)))}
@@ -200,6 +216,12 @@ func VerifC01Typed() {
 			_, uerr := c.UpdateItem(vCtx, &dynamodb.UpdateItemInput{TableName: aws.String(vTbl), Key: vItem{"p": vN(group[(r+1)%3]), "s": val(rt, 0)},
 				UpdateExpression: aws.String("SET w = :x"), ExpressionAttributeValues: vItem{":x": vS("u")}})
 			nd.Assert(uerr == nil, "C01-typed-update-noerr")
+			// the updated item is still the item under that key: its key attribute has the key's value, and the
+			// update's own result shows it
+			upd, gerr3 := vGet(c, vItem{"p": vN(group[w]), "s": val(rt, 0)})
+			pn, _ := upd["p"].(*types.AttributeValueMemberN)
+			uw, _ := vGetS(upd, "w")
+			nd.Assert(gerr3 == nil && pn != nil && vspec.SameNumeral(pn.Value, group[0]) && uw == "u" && len(upd) == 4, "C01-typed-updated-item-keeps-its-key-value")
 			_, derr3 := c.DeleteItem(vCtx, &dynamodb.DeleteItemInput{TableName: aws.String(vTbl), Key: vItem{"p": vN(group[(w+1)%3]), "s": val(rt, 0)}})
 			nd.Assert(derr3 == nil, "C01-typed-delete-noerr")
 			gone, gerr2 := vGet(c, vItem{"p": vN(group[w]), "s": val(rt, 0)})
